@@ -329,6 +329,11 @@ def run_check(pid, tier, seed, replay=None):
         "wall_s": round(wall, 2),
         "violations": len(violations) + (1 if (relevant_broken and not violations) else 0),
     }
+    if discharged == 0:
+        # nothing was proved in this run (broken build / obligations): do not present it as proof-level evidence
+        ev["level"] = "other"
+        ev["coverage"]["explanation"] = ("no proof obligation of this property could be discharged in this run "
+                                         "(see broken_obligations); the figures below are the correspondence / oracle runs only")
     write_evidence(pid, ev)
     for l in lines:
         log(l)
